@@ -207,4 +207,509 @@ theorem descend_char (pre : Pat) (hpre : pre.all litOK = true) (ns : Nodes) (cur
           cases hp : (getK ns k).pname <;> simp [hp]
         · simp [hk, nameAt]
 
+
+/-! ### registration of one pattern -/
+
+def leafUpd (lf : Leaf) (r : NodeRec) : NodeRec := { r with leaf := some lf }
+def wildUpd (lf : Leaf) (r : NodeRec) : NodeRec := { r with wild := some lf }
+
+theorem insertStd_cons (lf : Leaf) (ns : Nodes) (cur : Key) (seg : Bytes) (rest : List Bytes) (h : seg ≠ []) :
+    insertStd lf ns cur (seg :: rest) =
+      insertStd lf (if rest.isEmpty then setK (childFor ns cur seg).2 (leafUpd lf) (childFor ns cur seg).1
+                    else (childFor ns cur seg).1) (childFor ns cur seg).2 rest := by
+  rw [insertStd]
+  simp only [h, if_false]
+  rfl
+
+theorem descendPrefix_cons (ns : Nodes) (cur : Key) (seg : Bytes) (rest : List Bytes) (h : seg ≠ []) :
+    descendPrefix ns cur (seg :: rest) = descendPrefix (childFor ns cur seg).1 (childFor ns cur seg).2 rest := by
+  rw [descendPrefix]
+  simp only [h, if_false]
+
+/-- `insertStd` is the prefix descent followed by attaching the leaf at the node reached -/
+theorem insertStd_eq (lf : Leaf) (pat : Pat) (hne : pat ≠ []) (hpat : pat.all litOK = true) (ns : Nodes) (cur : Key) :
+    insertStd lf ns cur (segTexts pat) =
+      setK (descendPrefix ns cur (segTexts pat)).2 (leafUpd lf) (descendPrefix ns cur (segTexts pat)).1 := by
+  induction pat generalizing ns cur with
+  | nil => exact absurd rfl hne
+  | cons a rest ih =>
+    simp only [List.all_cons, Bool.and_eq_true] at hpat
+    obtain ⟨ha, hrest⟩ := hpat
+    have hseg : renderSeg a ≠ [] := by
+      cases a with
+      | lit s => simp only [litOK, Bool.and_eq_true, decide_eq_true_eq] at ha; exact ha.1
+      | par n => simp [renderSeg]
+      | wild => simp [litOK] at ha
+    simp only [segTexts, List.map_cons]
+    rw [insertStd_cons _ _ _ _ _ hseg, descendPrefix_cons _ _ _ _ hseg]
+    cases rest with
+    | nil =>
+      simp only [List.map_nil, List.isEmpty_nil, if_true, insertStd, descendPrefix]
+    | cons b rest' =>
+      have := ih (by simp) hrest (childFor ns cur (renderSeg a)).1 (childFor ns cur (renderSeg a)).2
+      simp only [segTexts] at this
+      simp only [List.map_cons, List.isEmpty_cons, Bool.false_eq_true, if_false]
+      exact this
+
+/-- a registration as the tree sees it: a body of literals and parameters, possibly a trailing `*`,
+and the leaf (handlers, constraints, path text) -/
+structure Entry where
+  bp : Pat
+  w : Bool
+  lf : Leaf
+deriving DecidableEq, Repr
+
+def Entry.pat (e : Entry) : Pat := e.bp ++ (if e.w then [PSeg.wild] else [])
+
+def Entry.ok (e : Entry) : Prop := e.bp.all litOK = true
+
+/-- registration of one entry into the node map: walk the body, then attach the leaf (or hang the
+wildcard) at the node reached -/
+def addEntry (ns : Nodes) (e : Entry) : Nodes :=
+  setK (descendPrefix ns [] (segTexts e.bp)).2
+    (if e.w then wildUpd e.lf else leafUpd e.lf)
+    (descendPrefix ns [] (segTexts e.bp)).1
+
+/-- the record of node `k` after registering one entry -/
+theorem addEntry_getK (e : Entry) (hb : e.ok) (ns : Nodes) (k : Key) :
+    getK (addEntry ns e) k =
+      { leaf := if e.w = false ∧ k = ekeys e.bp then some e.lf else (getK ns k).leaf,
+        pname := (getK ns k).pname <|> nameAt e.bp [] k,
+        wild := if e.w = true ∧ k = ekeys e.bp then some e.lf else (getK ns k).wild } := by
+  obtain ⟨h1, h2⟩ := descend_char e.bp hb ns []
+  unfold addEntry
+  rw [getK_setK, h1]
+  simp only [List.nil_append]
+  by_cases hk : k = ekeys e.bp
+  · subst hk
+    rw [(h2 _).2]
+    cases hw : e.w <;> simp [wildUpd, leafUpd]
+  · simp only [hk, and_false, if_false]
+    rw [(h2 k).2]
+
+theorem onPath_end (bp : Pat) (c : Key) (hb : bp.all litOK = true) (h : ekeys bp ≠ []) :
+    onPath bp c (c ++ ekeys bp) = true := by
+  induction bp generalizing c with
+  | nil => exact absurd rfl h
+  | cons a rest ih =>
+    simp only [List.all_cons, Bool.and_eq_true] at hb
+    cases a with
+    | lit s =>
+      simp only [ekeys, List.filterMap_cons, ekey, onPath]
+      by_cases hr : ekeys rest = []
+      · simp only [ekeys] at hr; simp [hr]
+      · have := ih (c ++ [ESeg.s s]) hb.2 hr
+        simp only [ekeys, List.append_assoc, List.singleton_append] at this
+        simp [this]
+    | par n =>
+      simp only [ekeys, List.filterMap_cons, ekey, onPath]
+      by_cases hr : ekeys rest = []
+      · simp only [ekeys] at hr; simp [hr]
+      · have := ih (c ++ [ESeg.p]) hb.2 hr
+        simp only [ekeys, List.append_assoc, List.singleton_append] at this
+        simp [this]
+    | wild => simp [litOK] at hb
+
+theorem addEntry_hasK (e : Entry) (hb : e.ok) (ns : Nodes) (k : Key) (hk : k ≠ []) :
+    hasK (addEntry ns e) k = (hasK ns k || onPath e.bp [] k) := by
+  obtain ⟨h1, h2⟩ := descend_char e.bp hb ns []
+  unfold addEntry
+  rw [hasK_setK, h1, (h2 k).1 (Or.inl hk)]
+  simp only [List.nil_append]
+  by_cases hke : k = ekeys e.bp
+  · have : onPath e.bp [] k = true := by
+      subst hke
+      simpa using onPath_end e.bp [] hb hk
+    simp [this]
+  · simp [hke]
+
+/-! ### a whole registration sequence -/
+
+def firstSome {α β} (f : α → Option β) : List α → Option β
+  | [] => none
+  | a :: l => f a <|> firstSome f l
+
+/-- the last element (in list order) on which `f` answers -/
+def lastSome {α β} (f : α → Option β) : List α → Option β
+  | [] => none
+  | a :: l => lastSome f l <|> f a
+
+def leafAt (k : Key) (e : Entry) : Option Leaf := if e.w = false ∧ k = ekeys e.bp then some e.lf else none
+def wildAt (k : Key) (e : Entry) : Option Leaf := if e.w = true ∧ k = ekeys e.bp then some e.lf else none
+
+theorem foldl_getK (L : List Entry) (hL : ∀ e ∈ L, e.ok) (ns : Nodes) (k : Key) :
+    getK (L.foldl addEntry ns) k =
+      { leaf := lastSome (leafAt k) L <|> (getK ns k).leaf,
+        pname := (getK ns k).pname <|> firstSome (fun e => nameAt e.bp [] k) L,
+        wild := lastSome (wildAt k) L <|> (getK ns k).wild } := by
+  induction L generalizing ns with
+  | nil => simp [lastSome, firstSome]
+  | cons e rest ih =>
+    simp only [List.foldl_cons]
+    rw [ih (fun x hx => hL x (List.mem_cons_of_mem _ hx)), addEntry_getK e (hL e (List.mem_cons_self ..))]
+    simp only [lastSome, firstSome, leafAt, wildAt]
+    congr 1
+    · cases lastSome (leafAt k) rest <;> simp [leafAt]
+      split <;> simp
+    · cases (getK ns k).pname <;> simp
+    · cases lastSome (wildAt k) rest <;> simp [wildAt]
+      split <;> simp
+
+theorem foldl_hasK (L : List Entry) (hL : ∀ e ∈ L, e.ok) (ns : Nodes) (k : Key) (hk : k ≠ []) :
+    hasK (L.foldl addEntry ns) k = (hasK ns k || L.any fun e => onPath e.bp [] k) := by
+  induction L generalizing ns with
+  | nil => simp
+  | cons e rest ih =>
+    simp only [List.foldl_cons, List.any_cons]
+    rw [ih (fun x hx => hL x (List.mem_cons_of_mem _ hx)), addEntry_hasK e (hL e (List.mem_cons_self ..)) ns k hk]
+    simp [Bool.or_assoc]
+
+/-! ### live suffixes: what is left of a pattern below the node with key `k` -/
+
+/-- `strip pat k = some suf`: the node with key `k` lies on the pattern's path and `suf` is the rest of
+the pattern below it (`none`: the pattern does not pass through that node) -/
+def strip : Pat → Key → Option Pat
+  | pat, [] => some pat
+  | [], _ :: _ => none
+  | seg :: rest, e :: es => if ekey seg = some e then strip rest es else none
+
+/-- a pattern the tree can hold: a body of literals and parameters, then possibly one `*` -/
+def wfPat (pat : Pat) : Prop := ∃ bp t, pat = bp ++ t ∧ bp.all litOK = true ∧ (t = [] ∨ t = [PSeg.wild])
+
+theorem strip_nil_key (pat : Pat) : strip pat [] = some pat := by
+  cases pat <;> rfl
+
+theorem strip_tail_ne (t : Pat) (ht : t = [] ∨ t = [PSeg.wild]) (e : ESeg) (q : Key) : strip t (e :: q) = none := by
+  rcases ht with rfl | rfl
+  · rfl
+  · simp [strip, ekey]
+
+theorem onPath_iff (bp t : Pat) (hb : bp.all litOK = true) (ht : t = [] ∨ t = [PSeg.wild]) (c k : Key) :
+    onPath bp c k = true ↔ ∃ q, q ≠ [] ∧ k = c ++ q ∧ (strip (bp ++ t) q).isSome = true := by
+  induction bp generalizing c with
+  | nil =>
+    simp only [onPath, List.nil_append, Bool.false_eq_true, false_iff]
+    rintro ⟨q, hq, _, h⟩
+    cases q with
+    | nil => exact hq rfl
+    | cons e q' => rw [strip_tail_ne t ht] at h; simp at h
+  | cons a rest ih =>
+    simp only [List.all_cons, Bool.and_eq_true] at hb
+    have key : ∀ (e : ESeg), ekey a = some e →
+        ((k = c ++ [e] ∨ onPath rest (c ++ [e]) k = true) ↔
+          ∃ q, q ≠ [] ∧ k = c ++ q ∧ (strip (a :: rest ++ t) q).isSome = true) := by
+      intro e he
+      constructor
+      · rintro (h | h)
+        · exact ⟨[e], by simp, h, by simp [strip, he, strip_nil_key]⟩
+        · obtain ⟨q, hq, hk, hs⟩ := (ih hb.2 (c ++ [e])).mp h
+          exact ⟨e :: q, by simp, by simp [hk], by simpa [strip, he] using hs⟩
+      · rintro ⟨q, hq, hk, hs⟩
+        cases q with
+        | nil => exact absurd rfl hq
+        | cons e' q' =>
+          simp only [List.cons_append, strip, he] at hs
+          by_cases hee : some e = some e'
+          · injection hee with hee; subst hee
+            simp only [if_true] at hs
+            cases q' with
+            | nil => left; exact hk
+            | cons e2 q2 =>
+              right
+              exact (ih hb.2 (c ++ [e])).mpr ⟨e2 :: q2, by simp, by simp [hk], hs⟩
+          · simp [hee] at hs
+    cases a with
+    | lit s => simpa [onPath] using key (ESeg.s s) rfl
+    | par n => simpa [onPath] using key ESeg.p rfl
+    | wild => simp [litOK] at hb
+
+theorem nameAt_prefix (pat : Pat) (c k : Key) (n : Bytes) (h : nameAt pat c k = some n) : c <+: k := by
+  induction pat generalizing c with
+  | nil => simp [nameAt] at h
+  | cons a rest ih =>
+    cases a with
+    | lit s =>
+      simp only [nameAt] at h
+      exact (List.prefix_append c [ESeg.s s]).trans (ih _ h)
+    | par m =>
+      simp only [nameAt] at h
+      by_cases hk : k = c
+      · subst hk; exact List.prefix_refl _
+      · simp only [hk, if_false] at h
+        exact (List.prefix_append c [ESeg.p]).trans (ih _ h)
+    | wild => simp [nameAt] at h
+
+theorem nameAt_off (pat : Pat) (c : Key) (e e' : ESeg) (q : Key) (hne : e ≠ e') :
+    nameAt pat (c ++ [e]) (c ++ e' :: q) = none := by
+  cases h : nameAt pat (c ++ [e]) (c ++ e' :: q) with
+  | none => rfl
+  | some n =>
+    exfalso
+    have hp := nameAt_prefix _ _ _ _ h
+    rw [List.prefix_append_right_inj] at hp
+    obtain ⟨t, ht⟩ := hp
+    simp only [List.singleton_append] at ht
+    injection ht with h1 _
+    exact hne h1
+
+/-- the parameter name a pattern declares at the node `k` -/
+def nameAtS (pat : Pat) (k : Key) : Option Bytes :=
+  match strip pat k with
+  | some (PSeg.par n :: _) => some n
+  | _ => none
+
+theorem nameAt_eq (bp t : Pat) (hb : bp.all litOK = true) (ht : t = [] ∨ t = [PSeg.wild]) (c q : Key) :
+    nameAt bp c (c ++ q) = nameAtS (bp ++ t) q := by
+  induction bp generalizing c q with
+  | nil =>
+    simp only [nameAt, List.nil_append, nameAtS]
+    cases q with
+    | nil =>
+      rw [strip_nil_key]
+      rcases ht with rfl | rfl <;> rfl
+    | cons e q' => rw [strip_tail_ne t ht]
+  | cons a rest ih =>
+    simp only [List.all_cons, Bool.and_eq_true] at hb
+    cases q with
+    | nil =>
+      simp only [List.append_nil, nameAtS, strip_nil_key, List.cons_append]
+      cases a with
+      | lit s =>
+        simp only [nameAt]
+        exact nameAt_short rest _ _ (by simp)
+      | par n => simp [nameAt]
+      | wild => simp [litOK] at hb
+    | cons e q' =>
+      cases a with
+      | lit s =>
+        simp only [nameAt, nameAtS, List.cons_append, strip, ekey]
+        by_cases he : ESeg.s s = e
+        · subst he
+          have := ih hb.2 (c ++ [ESeg.s s]) q'
+          simp only [List.append_assoc, List.singleton_append, nameAtS] at this
+          simpa using this
+        · have hne : some (ESeg.s s) ≠ some e := by intro h; injection h with h; exact he h
+          simp only [hne, if_false]
+          exact nameAt_off rest c _ _ q' he
+      | par n =>
+        simp only [nameAt, nameAtS, List.cons_append, strip, ekey]
+        have hck : c ++ e :: q' ≠ c := by
+          intro h; have := congrArg List.length h; simp at this
+        simp only [hck, if_false]
+        by_cases he : ESeg.p = e
+        · subst he
+          have := ih hb.2 (c ++ [ESeg.p]) q'
+          simp only [List.append_assoc, List.singleton_append, nameAtS] at this
+          simpa using this
+        · have hne : some ESeg.p ≠ some e := by intro h; injection h with h; exact he h
+          simp only [hne, if_false]
+          exact nameAt_off rest c _ _ q' he
+      | wild => simp [litOK] at hb
+
+
+/-! ### the node map of a registration sequence, in terms of live suffixes -/
+
+/-- one more edge label below a node -/
+def stepSuf (e : ESeg) : Pat → Option Pat
+  | [] => none
+  | seg :: rest => if ekey seg = some e then some rest else none
+
+theorem strip_snoc (pat : Pat) (k : Key) (e : ESeg) : strip pat (k ++ [e]) = (strip pat k).bind (stepSuf e) := by
+  induction k generalizing pat with
+  | nil =>
+    cases pat with
+    | nil => simp [strip, stepSuf]
+    | cons seg rest =>
+      simp only [List.nil_append, strip, strip_nil_key, Option.bind_some, stepSuf]
+  | cons e0 k' ih =>
+    cases pat with
+    | nil => simp [strip]
+    | cons seg rest =>
+      simp only [List.cons_append, strip]
+      by_cases h : ekey seg = some e0
+      · simp only [h, if_true]; exact ih rest
+      · simp [h]
+
+theorem Entry.wf (e : Entry) (h : e.ok) : ∃ t, e.pat = e.bp ++ t ∧ (t = [] ∨ t = [PSeg.wild]) := by
+  refine ⟨if e.w then [PSeg.wild] else [], rfl, ?_⟩
+  cases e.w <;> simp
+
+/-- the node map after registering `L` in order, starting from an empty tree -/
+def nodesOf (L : List Entry) : Nodes := L.foldl addEntry []
+
+theorem any_congr_mem {α} (l : List α) (f g : α → Bool) (h : ∀ a ∈ l, f a = g a) : l.any f = l.any g := by
+  induction l with
+  | nil => rfl
+  | cons a rest ih =>
+    simp only [List.any_cons]
+    rw [h a (List.mem_cons_self ..), ih (fun x hx => h x (List.mem_cons_of_mem _ hx))]
+
+theorem firstSome_congr_mem {α β} (l : List α) (f g : α → Option β) (h : ∀ a ∈ l, f a = g a) :
+    firstSome f l = firstSome g l := by
+  induction l with
+  | nil => rfl
+  | cons a rest ih =>
+    simp only [firstSome]
+    rw [h a (List.mem_cons_self ..), ih (fun x hx => h x (List.mem_cons_of_mem _ hx))]
+
+theorem lastSome_congr_mem {α β} (l : List α) (f g : α → Option β) (h : ∀ a ∈ l, f a = g a) :
+    lastSome f l = lastSome g l := by
+  induction l with
+  | nil => rfl
+  | cons a rest ih =>
+    simp only [lastSome]
+    rw [h a (List.mem_cons_self ..), ih (fun x hx => h x (List.mem_cons_of_mem _ hx))]
+
+theorem nodesOf_hasK (L : List Entry) (hL : ∀ e ∈ L, e.ok) (k : Key) (hk : k ≠ []) :
+    hasK (nodesOf L) k = L.any fun e => (strip e.pat k).isSome := by
+  unfold nodesOf
+  rw [foldl_hasK L hL [] k hk]
+  have h0 : hasK [] k = false := rfl
+  rw [h0, Bool.false_or]
+  apply any_congr_mem
+  intro e he
+  obtain ⟨t, hpat, ht⟩ := e.wf (hL e he)
+  rw [hpat]
+  have := onPath_iff e.bp t (hL e he) ht [] k
+  simp only [List.nil_append] at this
+  cases hs : (strip (e.bp ++ t) k).isSome with
+  | true => exact this.mpr ⟨k, hk, rfl, hs⟩
+  | false =>
+    cases ho : onPath e.bp [] k with
+    | false => rfl
+    | true =>
+      obtain ⟨q, _, hq, hq2⟩ := this.mp ho
+      subst hq; rw [hs] at hq2; exact absurd hq2 (by simp)
+
+theorem nodesOf_pname (L : List Entry) (hL : ∀ e ∈ L, e.ok) (k : Key) :
+    (getK (nodesOf L) k).pname = firstSome (fun e => nameAtS e.pat k) L := by
+  unfold nodesOf
+  rw [foldl_getK L hL [] k]
+  have h0 : (getK [] k).pname = none := rfl
+  simp only [h0]
+  rw [show (none <|> firstSome (fun e => nameAt e.bp [] k) L) = firstSome (fun e => nameAt e.bp [] k) L by simp]
+  apply firstSome_congr_mem
+  intro e he
+  obtain ⟨t, hpat, ht⟩ := e.wf (hL e he)
+  rw [hpat]
+  have := nameAt_eq e.bp t (hL e he) ht [] k
+  simpa using this
+
+/-- a live suffix is what is left after a prefix in which every segment has an edge label -/
+theorem strip_split (pat : Pat) (k : Key) (suf : Pat) (h : strip pat k = some suf) :
+    ∃ pre, pat = pre ++ suf ∧ (pre.filterMap ekey).length = pre.length := by
+  induction k generalizing pat with
+  | nil =>
+    rw [strip_nil_key] at h
+    injection h with h
+    exact ⟨[], by simp [h], rfl⟩
+  | cons e q ih =>
+    cases pat with
+    | nil => simp [strip] at h
+    | cons seg rest =>
+      simp only [strip] at h
+      by_cases he : ekey seg = some e
+      · simp only [he, if_true] at h
+        obtain ⟨pre, hp, hl⟩ := ih rest h
+        exact ⟨seg :: pre, by simp [hp], by simp [List.filterMap_cons, he, hl]⟩
+      · simp [he] at h
+
+/-- the entry hangs its leaf exactly at node `k` -/
+theorem strip_eq_tail (bp t : Pat) (hb : bp.all litOK = true) (ht : t = [] ∨ t = [PSeg.wild]) (k : Key) :
+    strip (bp ++ t) k = some t ↔ k = ekeys bp := by
+  induction bp generalizing k with
+  | nil =>
+    cases k with
+    | nil => simp [strip_nil_key, ekeys]
+    | cons e q => simp [strip_tail_ne t ht, ekeys]
+  | cons a rest ih =>
+    simp only [List.all_cons, Bool.and_eq_true] at hb
+    have hek : ∃ e, ekey a = some e := by
+      cases a with
+      | lit s => exact ⟨_, rfl⟩
+      | par n => exact ⟨_, rfl⟩
+      | wild => simp [litOK] at hb
+    obtain ⟨e, he⟩ := hek
+    cases k with
+    | nil =>
+      simp only [strip_nil_key, List.cons_append, Option.some.injEq, ekeys, List.filterMap_cons, he]
+      constructor
+      · intro h
+        have := congrArg List.length h
+        simp at this; omega
+      · intro h; simp at h
+    | cons e' q =>
+      simp only [List.cons_append, strip, he, ekeys, List.filterMap_cons]
+      by_cases hee : e = e'
+      · subst hee
+        simp only [if_true, List.cons.injEq, true_and]
+        have := ih hb.2 q
+        simpa [ekeys] using this
+      · have : some e ≠ some e' := by intro h; injection h with h; exact hee h
+        simp only [this, if_false, List.cons.injEq]
+        constructor
+        · intro h; simp at h
+        · intro h; exact absurd h.1.symm hee
+
+theorem nodesOf_leaf (L : List Entry) (hL : ∀ e ∈ L, e.ok) (k : Key) :
+    (getK (nodesOf L) k).leaf = lastSome (fun e => if strip e.pat k = some [] then some e.lf else none) L := by
+  unfold nodesOf
+  rw [foldl_getK L hL [] k]
+  have h0 : (getK [] k).leaf = none := rfl
+  simp only [h0]
+  rw [show (lastSome (leafAt k) L <|> none) = lastSome (leafAt k) L by simp]
+  apply lastSome_congr_mem
+  intro e he
+  unfold leafAt Entry.pat
+  cases hw : e.w with
+  | false =>
+    simp only [Bool.false_eq_true, if_false, true_and]
+    have := strip_eq_tail e.bp [] (hL e he) (Or.inl rfl) k
+    simp only [List.append_nil] at this ⊢
+    by_cases hk : k = ekeys e.bp
+    · rw [if_pos hk, if_pos (this.mpr hk)]
+    · rw [if_neg hk, if_neg (fun h => hk (this.mp h))]
+  | true =>
+    simp only [if_true, Bool.true_eq_false, false_and, if_false]
+    -- a suffix of a wildcard entry always ends in `*`
+    have hn : ¬ strip (e.bp ++ [PSeg.wild]) k = some [] := by
+      intro h
+      obtain ⟨pre, hp, hlen⟩ := strip_split _ _ _ h
+      simp only [List.append_nil] at hp
+      subst hp
+      have hle := List.length_filterMap_le ekey e.bp
+      simp only [List.filterMap_append, List.filterMap_cons, ekey, List.filterMap_nil, List.length_append,
+        List.length_nil, List.length_cons] at hlen
+      omega
+    simp [hn]
+
+theorem nodesOf_wild (L : List Entry) (hL : ∀ e ∈ L, e.ok) (k : Key) :
+    (getK (nodesOf L) k).wild = lastSome (fun e => if strip e.pat k = some [PSeg.wild] then some e.lf else none) L := by
+  unfold nodesOf
+  rw [foldl_getK L hL [] k]
+  have h0 : (getK [] k).wild = none := rfl
+  simp only [h0]
+  rw [show (lastSome (wildAt k) L <|> none) = lastSome (wildAt k) L by simp]
+  apply lastSome_congr_mem
+  intro e he
+  unfold wildAt Entry.pat
+  cases hw : e.w with
+  | true =>
+    simp only [if_true, true_and]
+    have := strip_eq_tail e.bp [PSeg.wild] (hL e he) (Or.inr rfl) k
+    by_cases hk : k = ekeys e.bp
+    · rw [if_pos hk, if_pos (this.mpr hk)]
+    · rw [if_neg hk, if_neg (fun h => hk (this.mp h))]
+  | false =>
+    simp only [Bool.false_eq_true, if_false, false_and, List.append_nil]
+    -- a suffix of an entry without wildcard contains no `*`
+    have hn : ¬ strip e.bp k = some [PSeg.wild] := by
+      intro h
+      obtain ⟨pre, hp, _⟩ := strip_split _ _ _ h
+      have hb := hL e he
+      unfold Entry.ok at hb
+      rw [hp] at hb
+      simp [litOK] at hb
+    simp [hn]
+
 end Rivaas.RadixL
